@@ -826,6 +826,9 @@ def getattr_(I, obj, name):
         sub = getattr(obj, "attrs", {}).get(name)
         if sub is not None:
             return sub
+    from .nplib import DType, dtype_attr
+    if isinstance(obj, DType):
+        return dtype_attr(obj, name)
     raise Unsupported(f"attribute {name} of {type_name(obj)}")
 
 
